@@ -30,7 +30,8 @@ for r in recs:
             if shown[key] < 4:
                 shown[key] += 1
                 print("IMPL!=SPEC", kid, json.dumps(c, ensure_ascii=False)[:400]); print("   impl", json.dumps(p, ensure_ascii=False)[:600]); print("   spec", json.dumps(dec["spec"], ensure_ascii=False)[:600])
-    if impl != dec["model"]:
+    fm = getattr(mod, "for_model", None)
+    if (json.loads(json.dumps(fm(c, impl), default=str)) if fm else impl) != dec["model"]:
         nd += 1
         if shown["M"] < 6:
             shown["M"] += 1
